@@ -516,7 +516,11 @@ impl Gen {
         };
         let quote = self.rng.pick(&info.supported_quote_denoms).clone();
         let price = self.price(info.price_precision.u128() as u32);
-        let size = info.size_increment.u128().saturating_mul(self.lots());
+        let mut size = info.size_increment.u128().saturating_mul(self.lots());
+        if info.size_increment.u128() > 1 && self.rng.pct(6) {
+            // off the size grid, everything else (totals, fee, funds) consistent with it
+            size = size.saturating_add(1 + self.rng.below((info.size_increment.u128() - 1).min(1 << 40) as u64) as u128);
+        }
         let mut id = self.rng.uuid();
         let mut sender = self.acct();
         let mut funds = self.funds_for(w, &base, size);
@@ -557,7 +561,11 @@ impl Gen {
     fn gen_create_bid(&mut self, w: &World, info: &ContractInfoV3) -> Step {
         let quote = self.rng.pick(&info.supported_quote_denoms).clone();
         let price = self.price(info.price_precision.u128() as u32);
-        let size = info.size_increment.u128().saturating_mul(self.lots());
+        let mut size = info.size_increment.u128().saturating_mul(self.lots());
+        if info.size_increment.u128() > 1 && self.rng.pct(6) {
+            // off the size grid, everything else (totals, fee, funds) consistent with it
+            size = size.saturating_add(1 + self.rng.below((info.size_increment.u128() - 1).min(1 << 40) as u64) as u128);
+        }
         let total = D::parse(&price).and_then(|d| d.times(size)).unwrap_or(size);
         let rate = info.bid_fee_info.as_ref().and_then(|f| D::parse(&f.rate));
         let fee_amt = rate.and_then(|r| r.fee_of(total)).unwrap_or(0);
